@@ -9,6 +9,14 @@ import os
 import sys
 
 HINT = {
+  'g': ("look for what it is least likely to exercise while still being squarely inside the property statement: behaviour AFTER RECOVERY (the "
+        "second failure after a successful reconnect, a member that leaves and re-joins twice, an object used again after it reported an error, "
+        "a second timeout on the same connection), RE-ENTRANCY (a user callback or an upper sink that calls back into the same object while it "
+        "is being notified), SUBSCRIPTIONS (a handler subscribed twice, never unsubscribed, or notified in a different order), SIMULTANEOUS events "
+        "(two timers due at the same tick, a reply and its timeout at the same instant, join and leave of the same member back to back), and "
+        "quantities DERIVED FROM TIME (zero or negative timeouts, deadlines already in the past when the call is issued, a clock that steps "
+        "backwards or jumps far ahead). Changes in shared helpers (scales/sink.py stack handling, observable.py, asynchronous.py, message.py, "
+        "dispatch.py, compat) that matter for this property only in one such situation are welcome."),
   'f': ("look for what it is least likely to exercise while still being squarely inside the property statement: SCALE and MAGNITUDE "
         "thresholds (the 17th member, the 257th or 65537th tag or byte, a 10th retry, counts that cross a power of two, clocks whose "
         "absolute value is as large as a real Unix time ~1.7e9 where float rounding bites, durations of days), CONFIGURATION values nobody "
